@@ -243,11 +243,11 @@ Proof.
     [destruct pr; simpl; auto using wf_do_close|]); simpl; apply wf_add_op; auto.
 Qed.
 
-Lemma wf_exec_return pr st t r : wf pr st -> wf pr (fst (exec_return pr st t r)).
+Lemma wf_exec_return pr st t r b : wf pr st -> wf pr (fst (exec_return pr st t r b)).
 Proof.
   intros W. unfold exec_return. destruct (find_op t (s_ops st)) as [o|]; simpl; auto.
   destruct (o_kind o); simpl.
-  - destruct (o_cancelled o); simpl; auto using wf_remove_op.
+  - destruct (o_cancelled o && negb b); simpl; auto using wf_remove_op.
   - apply (wf_remove_op pr (cancel_id (o_id o) st)). apply wf_cancel_id. exact W.
 Qed.
 
